@@ -374,6 +374,13 @@ mtbl_fileset_reload_now(struct mtbl_fileset *f)
 
 	struct timespec now;
 
+	/* if our merger is from an out of date fileset, reinitialize it. */
+	if ((f->fs_last.tv_sec != f->shared_fs->fs_last.tv_sec) ||
+	    (f->fs_last.tv_nsec != f->shared_fs->fs_last.tv_nsec)) {
+		fs_reinit_merger(f);
+		f->fs_last = f->shared_fs->fs_last;
+	}
+
 	/*
 	 * if there are any open iterators under this fileset,
 	 * do not reload now
